@@ -446,7 +446,7 @@ func oracleFor(op *Sexp, res string) []string {
 		if err != nil || n > mx || n > uint64(len(d)) {
 			bad("entriesPresent(%d bytes, max %d) = %s", len(d), mx, res)
 		}
-	case "descconc", "jconc", "regintern", "entryorder", "reginterntag", "regmapkind":
+	case "descconc", "jconc", "regintern", "entryorder", "reginterntag", "regmapkind", "gcptrs", "unwrap", "jalias", "regselfhist", "pkgreg":
 		if res != "ok" {
 			bad("%s: %s", op.head(), res)
 		}
